@@ -113,6 +113,7 @@ package forward
 //@   ensures probed-once-otherwise: sinceNs(old(upsStatus.lastFailedHealthcheck)) >= h.hcBackoff ==> !inBackoff && exCount == old(exCount) + 1 &&
 //@             exUps[old(exCount)] == upsStatus.upstream
 //@   ensures recovery-clears-the-mark: !inBackoff && err == nil ==> upsStatus.lastFailedHealthcheck == zero(time.Time)
+//@   ensures every-failed-probe-restarts-the-backoff: !inBackoff && err != nil ==> fromClock(upsStatus.lastFailedHealthcheck)
 
 // healthcheck: the set of upstreams used for queries is replaced, under the
 // write lock, by upstreams that were probed in this round and answered; an
@@ -151,3 +152,33 @@ package forward
 //@   requires req != nil && resp != nil && len(req.Question) >= 1
 //@   ensures accepted-iff-matching: (err == nil) == (req.Id == resp.Id && len(resp.Question) == 1 &&
 //@             req.Question[0].Qtype == resp.Question[0].Qtype && equalFold(req.Question[0].Name, resp.Question[0].Name))
+
+// A reply is handed on without error only if it matches the query - also when
+// the UDP attempt is followed by a TCP attempt.
+//@ pred matches(req *dns.Msg, resp *dns.Msg) = req.Id == resp.Id && len(resp.Question) == 1 &&
+//@        req.Question[0].Qtype == resp.Question[0].Qtype && equalFold(req.Question[0].Name, resp.Question[0].Name)
+//@ func (*UpstreamPlain).readValidMsg
+//@   property C17
+//@   requires u != nil && conn != nil && req != nil && len(req.Question) >= 1 && off(buf) == 0 && stamped[arr(buf)] == 0
+//@   requires network == NetworkTCP ==> cap(buf) >= 65535
+//@   modifies elems(buf), stamped[arr(buf)], allcells(uint16)
+//@   ensures accepted-only-when-matching: err == nil ==> resp != nil && matches(req, resp)
+// exchangeNet returns what readValidMsg returned for one of its (at most two)
+// connections; its pooling and retry are not verified here.
+//@ func (*UpstreamPlain).exchangeNet
+//@   modifies heap
+//@   ensures err == nil ==> resp != nil && matches(req, resp)
+//@   ensures req.Id == old(req.Id) && len(req.Question) == old(len(req.Question)) && (old(len(req.Question)) >= 1 ==> req.Question[0] == old(req.Question[0]))
+//@ func isExpectedConnErr
+//@   modifies nothing
+//@ func (*UpstreamPlain).exchangeUDP
+//@   property C17
+//@   requires u != nil && req != nil && len(req.Question) >= 1
+//@   modifies heap
+//@   ensures err == nil && resp != nil ==> matches(req, resp)
+//@   ensures req.Id == old(req.Id) && len(req.Question) == old(len(req.Question)) && req.Question[0] == old(req.Question[0])
+//@ func (*UpstreamPlain).Exchange
+//@   property C17
+//@   requires u != nil && req != nil && len(req.Question) >= 1
+//@   modifies heap
+//@   ensures a-reply-without-error-matches-the-query: err == nil && resp != nil ==> matches(req, resp)
